@@ -1,5 +1,6 @@
 import CTV.Lemmas.TlsCodec
 import CTV.Lemmas.TlsTag
+import CTV.Lemmas.TlsSupported
 /-!
 # C09 — the TLS presentation codec is a bijection on every supported type shape
 
@@ -265,6 +266,36 @@ example : resolve false (.struct (.cons "Sel" "maxval:2".toList (.named .u64)
       (.cons "Data16" "selector:Sel,val:1".toList (.ptr .u16)
       (.cons "Data32" "selector:Sel,val:2".toList (.ptr .u32) .nil)))) none
     = .struct (.plain "Sel" (.enum ⟨1, 0, 0, true⟩) (.variant "Data16" "Sel" 1 (.uint 2) (.variant "Data32" "Sel" 2 (.uint 4) .nil))) := by
+  decide +kernel
+
+/-! ## the documented mapping table yields well-formed shapes
+
+`Tls.Sup` / `Tls.SupF` (CTV/Lemmas/TlsSupported.lean) transcribe the table in the package comment of tls/tls.go:
+fixed-width integers, `[N]byte`, `tls.Enum` (or a type declared from it) with `size:`/`maxval:`, `[]byte` and `[]Type`
+with `minlen:,maxlen:` (or any other size clause), nested structs, `*Type` with `selector:Field,val:V` — for arbitrary
+decimal literals in the tags.  (Whether the selector precedes its variants does not matter for the theorems: the
+encoder refuses the value otherwise.) -/
+
+/-- Every Go type built from the documented shapes resolves to a well-formed codec type … -/
+theorem supported_wf (g : GoTy) (h : Sup g) (info : Option FieldInfo) : (resolve false g info).wf = true := h.wf info
+
+/-- … hence decoding the encoding of any of its values returns the value with exactly the suffix left over. -/
+theorem dec_enc_supported (g : GoTy) (h : Sup g) (v : Val) (bs r : Bytes) (he : enc (resolve false g none) v = .ok bs) :
+    dec (resolve false g none) (bs ++ r) = .ok (v, r) :=
+  Tls.dec_enc _ v bs r (h.wf none) he
+
+/-- the documented example `VariantItem` is in the table -/
+def variantItem : GoTy := .struct (.cons "Sel" ("maxval:".toList ++ "2".toList) (.named .u64)
+  (.cons "Data16" ("selector:".toList ++ "Sel".toList ++ ',' :: ("val:".toList ++ "1".toList)) (.ptr .u16)
+  (.cons "Data32" ("selector:".toList ++ "Sel".toList ++ ',' :: ("val:".toList ++ "2".toList)) (.ptr .u32) .nil)))
+
+example : Sup variantItem :=
+  .struct _ (.enum "Sel" _ _ _ rfl (.maxval _ 2 (by decide +kernel))
+    (.variant "Data16" "Sel".toList "1".toList 1 .u16 _ (by decide) (by decide) (by decide +kernel) .u16
+    (.variant "Data32" "Sel".toList "2".toList 2 .u32 _ (by decide) (by decide) (by decide +kernel) .u32 .nil)))
+
+example : variantItem = .struct (.cons "Sel" "maxval:2".toList (.named .u64)
+  (.cons "Data16" "selector:Sel,val:1".toList (.ptr .u16) (.cons "Data32" "selector:Sel,val:2".toList (.ptr .u32) .nil))) := by
   decide +kernel
 
 end C09
